@@ -388,7 +388,15 @@ def c05(ctx):
     rp2 = os.path.join(ctx.scratch, "readertrace.json")
     ctx.vdrive(["readertrace", "-outdir", tdir, "-corpus", CORPUS, "-seed", ctx.seed, "-out", rp2, "-shards", core.NCPU, "-chunkings", 4 if quick else 40])
     trep = ctx.report(rp2)
-    results = ctx.validate_traces("TraceReader.tla", "TraceReader.cfg", sorted(glob.glob(os.path.join(tdir, "*.ndjson"))))
+    rfiles = sorted(glob.glob(os.path.join(tdir, "*.ndjson")))
+    results = ctx.validate_traces("TraceReader.tla", "TraceReader.cfg", rfiles)
+
+    def swallow(rec):      # a run whose fault surfaced, logged as if no error had been returned
+        if rec.get("ev") == "end" and rec.get("err") == "Fault":
+            rec["err"] = "nil"
+            return True
+        return False
+    selftest05 = core.binding_selftest(ctx, "TraceReader.tla", "TraceReader.cfg", rfiles[0], swallow, "C05", "a surfaced read fault is logged as a nil error")
     violations = [v for v in rep["violations"] if v["property"] == prop]
     for res in results:
         lines = None
@@ -406,6 +414,7 @@ def c05(ctx):
                 v["key"] = "C05|%s|%s|%s|%s" % (t[3], begin.get("sample"), begin.get("limit"), begin.get("fault"))
                 violations.append(v)
     cov = dict(
+        binding_selftest=selftest05,
         evaluations=rep["evaluations"] + trep["evaluations"],
         distinct_nontrivial=rep["extra"]["with_fault_before_header_complete"] + trep["extra"]["cases_with_surfaced_fault"],
         rule="model: data length 0..%s x limit 0..%s x injected fault at every offset (or none) x every reply schedule of a conforming reader (short reads, (0,nil), EOF with or after the last bytes, fault with or after data); invariants ReadsStopAtLimit, NoFaultMeansPrefix, FaultSurfaces, OnlyInjected; termination under fairness. every behaviour is replayed with a scripted reader over 6 real payloads (the model's abstract byte = 2, 256 and 512 real bytes, so faults and limits also fall on 512-byte boundaries) comparing error identity, bytes consumed and the type with Detect on the same header; DetectFile / DetectReader(*os.File) / pipes on files of every size around the limit, readers that were already read from (bytes.Reader, strings.Reader, SectionReader, *os.File positioned at 1, 4, 9), procfs files (regular, size 0), inputs of 4095..32769 bytes under limits around 4096*2^k through three reader kinds; a missing path and a directory. traces: corpus x limits {0,1,7,3072,len-1,len,len+1} x chunking styles x faults at random offsets, every Read call logged and validated by TraceReader.tla. non-trivial = cases with a fault before the header was complete" % (("4", "5") if quick else ("6", "7")),
